@@ -21,6 +21,8 @@ DECIDED = ('(a) request text reaches the HTML error page only through an escaper
            'request data is only ever an argument of format / %, never the format string; (e) in the last-resort page every '
            'request-derived operand is wrapped in html_escape, html_escape replaces & first and covers < > " \', and under '
            'is_json_requested the body is json.dumps(<dict>) with Content-Type application/json set on the same branch.')
+DECIDED_MORE = ('Also: the receiver of .format() does not derive from the request URL; the traceback slot of framework-built errors is text or None.')
+DECIDED = DECIDED + ' ' + DECIDED_MORE
 NOT_DECIDED = 'pages rendered with debug on (excluded by the statement); custom error handlers; html.escape itself (assumed).'
 ASSUMPTIONS = ['html.escape and the five replacements of html_escape neutralise markup', 'json.dumps yields valid JSON']
 
